@@ -86,7 +86,7 @@ func main() {
 		die("type errors in ./zygo: %v", pkg.Errors)
 	}
 	shims := map[string]*shim{}
-	mapSites, mapNative, wallSites, fmtSites := 0, 0, 0, 0
+	mapSites, mapNative, wallSites, fmtSites, stdSites := 0, 0, 0, 0, 0
 	var siteList []string
 
 	for i, file := range pkg.Syntax {
@@ -144,6 +144,13 @@ func main() {
 				obj := pkg.TypesInfo.Uses[x.Sel]
 				fn, isFunc := obj.(*types.Func)
 				if !isFunc {
+					// the process's standard output and error as values (written to through methods or handed to
+					// fmt.Fprint*): a file of the simulator's, read back after every evaluation
+					if _, isVar := obj.(*types.Var); isVar && path == "os" && (x.Sel.Name == "Stdout" || x.Sel.Name == "Stderr") {
+						c.Replace(&ast.CallExpr{Fun: &ast.SelectorExpr{X: ast.NewIdent("verifos"), Sel: ast.NewIdent("OutFile")}})
+						changed, usedVerifos = true, true
+						stdSites++
+					}
 					return true
 				}
 				if path == "fmt" && fmtFuncs[fn.Name()] {
@@ -221,7 +228,7 @@ func main() {
 		writeVerifos(filepath.Join(repo, "zygo", "verifos"), shims)
 	}
 	sort.Strings(siteList)
-	fmt.Printf("verifinst: map sites rewritten=%d left native=%d; outside-world uses rewritten=%d (distinct shims %d); fmt.Print* uses=%d\n", mapSites, mapNative, wallSites, len(shims), fmtSites)
+	fmt.Printf("verifinst: map sites rewritten=%d left native=%d; outside-world uses rewritten=%d (distinct shims %d); fmt.Print* uses=%d, os.Stdout/Stderr values=%d\n", mapSites, mapNative, wallSites, len(shims), fmtSites, stdSites)
 	for _, s := range siteList {
 		if strings.HasPrefix(s, "native") {
 			fmt.Println("  " + s)
@@ -323,7 +330,7 @@ func writeVerifos(dir string, shims map[string]*shim) {
 		names = append(names, n)
 	}
 	sort.Strings(names)
-	imports := map[string]bool{"fmt": true, "errors": true, "bytes": true}
+	imports := map[string]bool{"fmt": true, "errors": true, "bytes": true, "os": true}
 	var body bytes.Buffer
 	qual := func(p *types.Package) string {
 		imports[p.Path()] = true
@@ -420,7 +427,42 @@ var Stdout bytes.Buffer
 // Policy decides whether an access proceeds. nil means allow (pass-through).
 var Policy func(op string, args []string) bool
 
-func Reset() { Log = nil; Stdout.Reset() }
+// OutFile stands for os.Stdout and os.Stderr where package zygo uses them as values.
+var outFile *os.File
+
+func OutFile() *os.File {
+	if outFile == nil {
+		f, err := os.CreateTemp("", "verifos-out-*")
+		if err != nil {
+			return os.Stderr
+		}
+		os.Remove(f.Name())
+		outFile = f
+	}
+	return outFile
+}
+
+// Output: everything package zygo printed since the last Reset (fmt.Print* first, then what went to OutFile)
+func Output() string {
+	s := Stdout.String()
+	if outFile != nil {
+		if n, err := outFile.Seek(0, 1); err == nil && n > 0 {
+			buf := make([]byte, n)
+			outFile.ReadAt(buf, 0)
+			s += string(buf)
+		}
+	}
+	return s
+}
+
+func Reset() {
+	Log = nil
+	Stdout.Reset()
+	if outFile != nil {
+		outFile.Truncate(0)
+		outFile.Seek(0, 0)
+	}
+}
 
 // Enter logs the access and asks the policy. os.Exit never proceeds.
 func Enter(op string, args []interface{}) bool {
